@@ -5,7 +5,7 @@ import itertools
 
 from mc import bootstrap
 from mc.builders import vhd as B
-from mc.diskcheck import compare_reads, compare_sector_reads, sliced, unit_sources, window_models
+from mc.diskcheck import recheck_after_failure, compare_reads, compare_sector_reads, sliced, unit_sources, window_models
 from mc.models import DATA, HOLE, boundaries, request_pairs
 
 PROPERTY = "C04"
@@ -164,3 +164,5 @@ def run_case(case, ctx):
         compare_reads(ctx, case, v, disk, reqs, subject + ".read", states, slots, unit, srcs)
         compare_sector_reads(ctx, case, v.disk.read_sectors, disk, sreqs, subject + ".read_sectors", 512, states,
                              slots, unit)
+        if not ctx.violations and not big:
+            recheck_after_failure(ctx, case, v.disk.read_sectors, v, disk, sreqs, reqs, subject)
